@@ -22,14 +22,14 @@ PROPS = {
                    "vs. the really emitted body; validity of the output by the real validator per sample.",
         level_note=SIM_NOTE, technique="Coq simulation proof + in-Coq differential execution against the real encoder output", design_ref="5/C16"),
     "C17": dict(COMMON,
-        proof_targets=["Props/C17.vo"], theorems=[("C17", "C17_function_entry_exit_lowering_correct"), ("C17", "C17_exit_before_every_exit_instruction")],
+        proof_targets=["Props/C17.vo"], theorems=[("C17", "C17_real_placement_correct"), ("C17", "C17_function_entry_exit_lowering_correct"), ("C17", "C17_exit_before_every_exit_instruction")],
         quick=dict(n=1200), thorough=dict(n=16000),
         rule="as C16 with function entry and/or exit probes (returns and branches to the function label at every nesting depth, unreachable, results) plus some plain before/after probes; non-trivial = every case",
         level_text="Proof (all bodies, plans, configurations, fuel): the plain interpreter on the lowered function - lowered body wrapped in a block of the result type, exit probes spliced before every "
                    "return/unreachable/throw/return_call and after the wrapper - returns the same results, globals and event trace as the specification interpreter, which fires entry once before any original "
-                   "instruction and exit once on every normal path; tied to the implementation by comparing the theorem's tree with the emitted body (modulo the documented placement of the code of instruction 0 "
-                   "in front of the wrapper opener) and by in-Coq differential execution on every sampled program.",
-        level_note=SIM_NOTE + " For C17 additionally: return_call/throw transfers themselves are not modelled (the interpreter stops after running the exit probes); the pre-opener placement of the entry code is argued, not proved.",
+                   "instruction and exit once on every normal path; tied to the implementation by comparing the theorem's tree (real placement: instruction 0's before-code and the entry probes in front of the wrapper opener, C17_real_placement_correct) "
+                   "with the emitted body, exactly, and by in-Coq differential execution on every sampled program.",
+        level_note=SIM_NOTE + " For C17 additionally: return_call/throw transfers themselves are not modelled (the interpreter stops after running the exit probes); probe code in front of the wrapper must be neutral (stack-neutral, events only).",
         technique="Coq simulation proof + in-Coq differential execution", design_ref="5/C17"),
     "C18": dict(COMMON,
         proof_targets=["Props/C18.vo"], theorems=[("C18", "C18_block_entry_lowering_correct")],
